@@ -20,6 +20,8 @@ from concurrent.futures import ProcessPoolExecutor, as_completed
 VERIF = os.path.dirname(os.path.dirname(os.path.abspath(__file__)))
 REPO = os.environ.get("VERIF_REPO", "/repo")
 BUILD = os.path.join(VERIF, ".build")
+# where evidence/ and replays/ go; only redirected when the checks are pointed at a scratch tree (seeded changes)
+OUT = os.environ.get("VERIF_OUT", VERIF)
 NCPU = int(os.environ.get("VERIF_JOBS", str(os.cpu_count() or 16)))
 os.environ["RUST_BACKTRACE"] = "0"
 os.environ.setdefault("CARGO_NET_OFFLINE", "true")
@@ -260,15 +262,15 @@ def finish(prop, tier, seed, acc, t0, rule, level="exploration", assumptions=Non
             seen_known.setdefault(sig, v)
         else:
             new.setdefault(sig, v)
-    os.makedirs(os.path.join(VERIF, "replays"), exist_ok=True)
-    os.makedirs(os.path.join(VERIF, "evidence"), exist_ok=True)
+    os.makedirs(os.path.join(OUT, "replays"), exist_ok=True)
+    os.makedirs(os.path.join(OUT, "evidence"), exist_ok=True)
     lines = []
     for sig, v in seen_known.items():
         lines.append("KNOWN-FINDING: property=%s %s [%s]" % (prop, known_sigs[sig].get("what", v["summary"]), sig))
     rc = 0
     for i, (sig, v) in enumerate(sorted(new.items())):
         h = hashlib.sha1(sig.encode()).hexdigest()[:10]
-        path = os.path.join(VERIF, "replays", "%s-%s.json" % (prop, h))
+        path = os.path.join(OUT, "replays", "%s-%s.json" % (prop, h))
         with open(path, "w") as f:
             json.dump({"property": prop, "signature": sig, "summary": v["summary"], "seed": seed, "tier": tier,
                        "witness": v["witness"]}, f, indent=1, default=str)
@@ -307,7 +309,7 @@ def finish(prop, tier, seed, acc, t0, rule, level="exploration", assumptions=Non
         "wall_s": round(time.time() - t0, 2),
         "violations": len(new),
     }
-    with open(os.path.join(VERIF, "evidence", "%s.json" % prop), "w") as f:
+    with open(os.path.join(OUT, "evidence", "%s.json" % prop), "w") as f:
         json.dump(ev, f, indent=1, default=str)
     for l in lines:
         print(l)
